@@ -487,6 +487,20 @@ impl Hdr {
             out.push(Term::atom("loc-rib"));
         }
         out.push(Term::atom(format!("flags-{}", self.flags)));
+        // exact boundaries of the numeric header fields
+        match self.asn {
+            0 => out.push(Term::atom("asn-0")),
+            65535 => out.push(Term::atom("asn-65535")),
+            65536 => out.push(Term::atom("asn-65536")),
+            u32::MAX => out.push(Term::atom("asn-max")),
+            _ => {}
+        }
+        if self.dist == u64::MAX {
+            out.push(Term::atom("dist-max"));
+        }
+        if self.ts == u32::MAX {
+            out.push(Term::atom("ts-max"));
+        }
     }
 }
 
@@ -662,6 +676,16 @@ pub(crate) fn build(t: &Term) -> Option<Built> {
                 tlv.push((u16_of(&e[0])?, e[1].as_bytes()?));
             }
             tags.push(Term::atom(format!("tlvs-{}", tlv.len().min(3))));
+            for (_, v) in &tlv {
+                match v.len() {
+                    0 => tags.push(Term::atom("tlv-0")),
+                    255 => tags.push(Term::atom("tlv-255")),
+                    256 => tags.push(Term::atom("tlv-256")),
+                    65535 => tags.push(Term::atom("tlv-65535")),
+                    x if x > 65535 => tags.push(Term::atom("tlv-over")),
+                    _ => {}
+                }
+            }
             Some(Built { term: t.clone(), real: Real::Bmp(bmp::Message::Initiation(tlv)), embs: vec![], tags })
         }
         "mrt-mp" if a.len() == 4 => {
@@ -710,6 +734,9 @@ pub(crate) fn build(t: &Term) -> Option<Built> {
                 1..=3 => "peers-few",
                 _ => "peers-many",
             }));
+            if peers.len() >= 65535 {
+                tags.push(Term::atom("peers-65535+"));
+            }
             Some(Built {
                 term: t.clone(),
                 real: Real::Td(ts, mrt::TableDumpRecord::PeerIndexTable { router_id, peers }),
@@ -750,12 +777,37 @@ pub(crate) fn build(t: &Term) -> Option<Built> {
                     x if x > 65535 => "attrlen-over",
                     _ => "attrlen-some",
                 }));
+                for a in attrs.iter() {
+                    match a.binary().map(|b| b.len()) {
+                        Some(255) => tags.push(Term::atom("adata-255")),
+                        Some(256) => tags.push(Term::atom("adata-256")),
+                        _ => {}
+                    }
+                }
                 entries.push(mrt::RibEntry {
                     peer_index: u16_of(&e[0])?,
                     originated: u32_of(&e[1])?,
                     nexthop,
                     attrs: Arc::new(attrs),
                 });
+            }
+            {
+                let bits = ab.len() * 8;
+                let m = mask as usize;
+                tags.push(Term::atom(if m == 0 {
+                    "mask-0"
+                } else if m > bits {
+                    "mask-over"
+                } else if m == bits {
+                    "mask-full"
+                } else if m % 8 != 0 {
+                    "mask-part"
+                } else {
+                    "mask-octet"
+                }));
+            }
+            if entries.len() >= 65535 {
+                tags.push(Term::atom("ents-65535+"));
             }
             tags.push(Term::atom(if v6 { "rib6" } else { "rib4" }));
             tags.push(Term::atom(match entries.len() {
@@ -881,7 +933,7 @@ pub(crate) fn v6s(i: u64) -> [u8; 16] {
 pub(crate) fn pick_v4(r: &mut Rng) -> [u8; 4] {
     *r.pick(&V4S[..])
 }
-pub(crate) const ASNS: [u32; 8] = [0, 1, 65001, 65002, 23456, 65536, 4200000001, 4294967295];
+pub(crate) const ASNS: [u32; 9] = [0, 1, 65001, 65002, 23456, 65535, 65536, 4200000001, 4294967295];
 pub(crate) const TSS: [u32; 5] = [0, 1, 1_000_000_000, 1_700_000_000, u32::MAX];
 
 pub(crate) fn g_ip(r: &mut Rng, v6: bool) -> Term {
@@ -895,7 +947,12 @@ pub(crate) fn g_hdr(r: &mut Rng) -> Term {
     let locrib = r.chance(1, 6);
     let ptype: u8 = if locrib { 3 } else if r.chance(1, 25) { *r.pick(&[1u8, 2, 255]) } else { 0 };
     let flags: u8 = if r.chance(1, 20) { *r.pick(&[0x80u8, 0xc0, 0xff, 0x01]) } else { *r.pick(&[0u8, 0, 0x40, 0x10, 0x50]) };
-    let dist: u64 = if r.chance(1, 8) { r.next() } else { 0 };
+    let dist: u64 = if r.chance(1, 8) {
+        let x = r.next();
+        *r.pick(&[x, u64::MAX, 1])
+    } else {
+        0
+    };
     let addr = if locrib && r.chance(5, 6) {
         Term::list(vec![Term::atom("v4"), Term::bytes(&[0, 0, 0, 0])])
     } else {
@@ -972,13 +1029,13 @@ pub(crate) fn g_attrs(r: &mut Rng, big: usize) -> Vec<Term> {
 
 pub(crate) fn g_pfx_bytes(r: &mut Rng, v6: bool) -> Vec<u8> {
     if v6 {
-        let mask = *r.pick(&[0u8, 32, 48, 64, 127, 128]);
+        let mask = *r.pick(&[0u8, 1, 32, 48, 63, 64, 65, 127, 128]);
         let mut b = vec![mask];
         let full = [0x20, 0x01, 0x0d, 0xb8, 0, r.below(3) as u8, 0, 0, 0, 0, 0, 0, 0, 0, 0, r.below(3) as u8];
         b.extend_from_slice(&full[..(mask as usize).div_ceil(8)]);
         b
     } else {
-        let mask = *r.pick(&[0u8, 8, 16, 24, 24, 24, 25, 32]);
+        let mask = *r.pick(&[0u8, 1, 7, 8, 9, 16, 24, 24, 24, 25, 31, 32]);
         let mut b = vec![mask];
         let full = [10, r.below(3) as u8, r.below(4) as u8, r.below(2) as u8 * 128];
         b.extend_from_slice(&full[..(mask as usize).div_ceil(8)]);
@@ -1162,7 +1219,7 @@ pub(crate) fn g_rec(r: &mut Rng, big: bool) -> Term {
     match r.below(20) {
         0..=6 => {
             let mut h = g_hdr(r);
-            let mon = g_update(r, big);
+            let mon = if r.chance(1, 60) { r.pick(&[Term::atom("keepalive"), Term::tag("rr", vec![Term::nat(65537u32)])]).clone() } else { g_update(r, big) };
             let ap = if r.chance(1, 3) { "t" } else { "f" };
             // Loc-RIB headers go with add-path off in the daemon; keep both in the stream anyway
             if r.chance(1, 10) {
@@ -1208,7 +1265,7 @@ pub(crate) fn g_rec(r: &mut Rng, big: bool) -> Term {
             let asn4 = if r.chance(1, 25) { "f" } else { "t" };
             let mph = Term::tag(
                 "mph",
-                vec![Term::nat(*r.pick(&ASNS)), Term::nat(*r.pick(&ASNS)), Term::nat(*r.pick(&[0u16, 0, 7])), g_ip(r, v6), g_ip(r, lv6), Term::atom(asn4)],
+                vec![Term::nat(*r.pick(&ASNS)), Term::nat(*r.pick(&ASNS)), Term::nat(*r.pick(&[0u16, 0, 7, 65535])), g_ip(r, v6), g_ip(r, lv6), Term::atom(asn4)],
             );
             let ap = if r.chance(1, 3) { "t" } else { "f" };
             Term::tag("mrt-mp", vec![mph, Term::atom(ap), q(), g_update(r, big)])
@@ -1257,9 +1314,9 @@ pub(crate) fn g_td(r: &mut Rng, big: bool) -> Vec<Term> {
     for seq in 0..nrec {
         let v6 = r.chance(1, 2);
         let (mask, addr) = if v6 {
-            (*r.pick(&[0u8, 32, 48, 64, 128]), v6s(r.below(2)).to_vec())
+            (*r.pick(&[0u8, 1, 32, 48, 63, 64, 65, 127, 128]), v6s(r.below(2)).to_vec())
         } else {
-            (*r.pick(&[0u8, 8, 24, 25, 32]), pick_v4(r).to_vec())
+            (*r.pick(&[0u8, 1, 7, 8, 9, 24, 25, 31, 32]), pick_v4(r).to_vec())
         };
         let mask = if r.chance(1, 40) { *r.pick(&[33u8, 129, 255]) } else { mask };
         let nent = match r.below(8) {
